@@ -504,6 +504,11 @@ func (w *worker) runSem(n int, c *Case, st *stats) {
 			emit(map[string]any{"n": n, "what": "returned tree", "fn": r.fn, "map": r.mp, "got": err.Error(), "q": qshow})
 			continue
 		}
+		if r.mp == "typed" {
+			ls := leaves(got, nil)
+			sort.Strings(ls)
+			words[r.fn] = strings.Join(ls, " ")
+		}
 		if st := strangers(got, atomSet, nil); len(st) > 0 {
 			// a term that is none of the written words: the query depends on something the expression does not name
 			emit(map[string]any{"n": n, "what": "returned tree", "fn": r.fn, "map": r.mp,
@@ -514,11 +519,6 @@ func (w *worker) runSem(n int, c *Case, st *stats) {
 			emit(map[string]any{"n": n, "what": "truth table", "fn": r.fn, "map": r.mp, "got": tt, "exp": c.TT, "q": qshow,
 				"tree": got})
 			continue
-		}
-		if r.mp == "typed" {
-			ls := leaves(got, nil)
-			sort.Strings(ls)
-			words[r.fn] = strings.Join(ls, " ")
 		}
 		if reflect.DeepEqual(got, c.AST) {
 			atomic.AddInt64(&st.shapeEq, 1)
